@@ -9,10 +9,12 @@ from common import w_str, r_str
 DECLS = {
     'arithmetic': ['(declare-const x Int)', '(declare-fun y () Real)', '(define-fun z () Int 3)', '(define-sort S () Real)',
                    # the sort as argument sort, parameter sort, in a recursive definition (fix F43)
-                   '(declare-fun fa (Int) Bool)', '(define-fun ga ((xa Real)) Bool true)', '(define-fun-rec ra ((xa Int)) Bool true)'],
+                   '(declare-fun fa (Int) Bool)', '(define-fun ga ((xa Real)) Bool true)', '(define-fun-rec ra ((xa Int)) Bool true)',
+                   # ... in a quantifier binder, define-const, declare-var (F43b)
+                   '(assert (forall ((qa Int)) true))', '(define-const ca Int 5)', '(declare-var va Real)'],
     'bv': ['(declare-const b (_ BitVec 8))', '(declare-fun c () (_ BitVec 4))', '(define-fun d () (_ BitVec 2) #b01)',
-           '(declare-fun fb ((_ BitVec 8)) Bool)', '(define-fun gb ((xb (_ BitVec 3))) Bool true)'],
-    'datatypes': ['(declare-datatype D ((k)))', '(declare-datatypes ((E 0)) (((m))))'],
+           '(declare-fun fb ((_ BitVec 8)) Bool)', '(define-fun gb ((xb (_ BitVec 3))) Bool true)', '(assert (exists ((qb (_ BitVec 8))) true))'],
+    'datatypes': ['(declare-datatype D ((k)))', '(declare-datatypes ((E 0)) (((m))))', '(declare-codatatypes ((S9 0)) (((c9 (s9 S9)))))'],
     'fp': ['(declare-const f Float32)', '(declare-const r RoundingMode)', '(declare-fun g () (_ FloatingPoint 5 11))',
            '(declare-fun ff ((_ FloatingPoint 8 24)) Bool)', '(define-fun gf ((xf RoundingMode)) Bool true)'],
     'strings': ['(declare-const s String)', '(declare-fun t () (Seq Int2))', '(define-fun u () String "a")',
